@@ -130,92 +130,51 @@ def showCatchEvent : CatchEvent → String
   | .droplet => "D"
   | .tiny n => s!"t{n}"
 
-/-- Records of one juice stream; `none` = panic / fuel. -/
-def juiceOf (s : SliderIn Float) : Except String (List CatchEvent × Bool) :=
-  let p := catchParams floatArith s
-  match p.events floatArith driverFuel with
-  | .clampPanic => .error "PANIC"
-  | .outOfFuel => .error "FUEL"
-  | .ok evs =>
-    match juiceRecords floatArith driverFuel none evs with
-    | none => .error "FUEL"
-    | some r => .ok (r, juiceOverflows floatArith none evs)
+def parseRawObjs (version sm tr objs : String) : Option (List (RawObj Float)) :=
+  (splitList objs ";").foldr (fun o acc =>
+    match acc with
+    | none => none
+    | some l =>
+      if o == "c" then some (.circle :: l)
+      else if o == "p" then some (.spinner :: l)
+      else (parseSliderIn version sm tr (o.splitOn ":")).map fun s => .slider s :: l) (some [])
 
 /-- `JUICE <version> <slider_multiplier> <tick_rate> <objects>` with objects separated by `;`:
 `c` (circle: one fruit), `p` (spinner / hold: no record), or a slider
 `start:beat_len:sv:generate_ticks:dist:spans` → the gradual records `fruit:tiny_before;…` of the
 whole map (`catch::verif::record_sequence`). -/
 def handleJUICE (version sm tr objs : String) : String :=
-  let step (acc : Except String (List CatchEvent × Bool)) (o : String) :
-      Except String (List CatchEvent × Bool) :=
-    match acc with
-    | .error e => .error e
-    | .ok (l, ovf) =>
-      if o == "c" then .ok (l ++ [.fruit], ovf)
-      else if o == "p" then .ok (l, ovf)
-      else
-        match parseSliderIn version sm tr (o.splitOn ":") with
-        | none => .error "bad-slider"
-        | some s =>
-          match juiceOf s with
-          | .error e => .error e
-          | .ok (r, o2) => .ok (l ++ r, ovf || o2)
-  match (splitList objs ";").foldl step (.ok ([], false)) with
-  | .error e => e
-  | .ok (evs, _) =>
-    showLong ((catchGradualRecs evs).map fun r => s!"{if r.fruit then 1 else 0}:{r.tiny}")
-
-/-- Descriptors of the counting models from raw objects: `c`, `p` or a slider. `mode` selects the
-parameter formulas (`osu`: `OsuSlider::new`, `catch`: `JuiceStream::new`). -/
-def rawOsuObjs (version sm tr : String) (objs : List String) : Except String (List OsuObj) :=
-  objs.foldl (fun acc o =>
-    match acc with
-    | .error e => .error e
-    | .ok l =>
-      if o == "c" then .ok (l ++ [⟨.circle, 0, 0⟩])
-      else if o == "p" then .ok (l ++ [⟨.spinner, 0, 0⟩])
-      else
-        match parseSliderIn version sm tr (o.splitOn ":") with
-        | none => .error "bad-slider"
-        | some s =>
-          let p := osuParams floatArith s
-          match p.events floatArith driverFuel with
-          | .clampPanic => .error "PANIC"
-          | .outOfFuel => .error "FUEL"
-          | .ok evs => .ok (l ++ [osuSliderObj floatArith p evs])) (.ok [])
-
-def rawCatchEvents (version sm tr : String) (objs : List String) : Except String (List CatchEvent) :=
-  objs.foldl (fun acc o =>
-    match acc with
-    | .error e => .error e
-    | .ok l =>
-      if o == "c" then .ok (l ++ [.fruit])
-      else if o == "p" then .ok l
-      else
-        match parseSliderIn version sm tr (o.splitOn ":") with
-        | none => .error "bad-slider"
-        | some s =>
-          match juiceOf s with
-          | .error e => .error e
-          | .ok (r, _) => .ok (l ++ r)) (.ok [])
+  match parseRawObjs version sm tr objs with
+  | none => "bad-slider"
+  | some raw =>
+    match catchMapEvents floatArith driverFuel raw with
+    | .clampPanic => "PANIC"
+    | .outOfFuel => "FUEL"
+    | .ok evs => showLong ((catchGradualRecs evs).map fun r => s!"{if r.fruit then 1 else 0}:{r.tiny}")
 
 /-- `ONER <osu|catch> <version> <slider_multiplier> <tick_rate> <objects> <take>`: the one-shot
-counting model of `Model/Gradual.lean` fed with descriptors computed from the raw slider inputs. -/
+counting model of `Model/Gradual.lean` fed with descriptors computed from the raw slider inputs
+(`osuMapObjs` / `catchMapEvents`). -/
 def handleONER (mode version sm tr objs take : String) : String :=
   let take := nat! take
   let skills : Skills Unit := ⟨(), fun _ _ => ()⟩
-  if mode == "osu" then
-    match rawOsuObjs version sm tr (splitList objs ";") with
-    | .error e => e
-    | .ok l =>
-      let c := (osuOneShot skills l take).1
-      s!"{c.maxCombo}:{c.nCircles}:{c.nSliders}:{c.nLargeTicks}:{c.nSpinners}"
-  else if mode == "catch" then
-    match rawCatchEvents version sm tr (splitList objs ";") with
-    | .error e => e
-    | .ok evs =>
-      let c := (catchOneShot skills evs take).1
-      s!"{c.fruits}:{c.droplets}:{c.tiny}"
-  else "bad-mode"
+  match parseRawObjs version sm tr objs with
+  | none => "bad-slider"
+  | some raw =>
+    if mode == "osu" then
+      match osuMapObjs floatArith driverFuel raw with
+      | .clampPanic => "PANIC"
+      | .outOfFuel => "FUEL"
+      | .ok l =>
+        let c := (osuOneShot skills l take).1
+        s!"{c.maxCombo}:{c.nCircles}:{c.nSliders}:{c.nLargeTicks}:{c.nSpinners}"
+    else if mode == "catch" then
+      match catchMapEvents floatArith driverFuel raw with
+      | .clampPanic => "PANIC"
+      | .outOfFuel => "FUEL"
+      | .ok evs =>
+        let c := (catchOneShot skills evs take).1
+        s!"{c.fruits}:{c.droplets}:{c.tiny}"
+    else "bad-mode"
 
 end Rosu.SliderEvents
